@@ -139,6 +139,25 @@ impl Engine {
         })
     }
 
+    /// CPU time (user + system, clock ticks) the engine process has used so far, from /proc.
+    pub fn cpu_ticks(&self) -> Option<u64> {
+        let stat = std::fs::read_to_string(format!("/proc/{}/stat", self.child.id())).ok()?;
+        // fields after the closing parenthesis of the command name: state is #3, utime #14, stime #15
+        let rest = stat.rsplit_once(')')?.1;
+        let f: Vec<&str> = rest.split_whitespace().collect();
+        let utime: u64 = f.get(11)?.parse().ok()?;
+        let stime: u64 = f.get(12)?.parse().ok()?;
+        Some(utime + stime)
+    }
+
+    /// True if the engine used (almost) no CPU during the next `ms` milliseconds.
+    pub fn is_idle_for(&mut self, ms: u64) -> Option<bool> {
+        let a = self.cpu_ticks()?;
+        self.settle(ms);
+        let b = self.cpu_ticks()?;
+        Some(b.saturating_sub(a) <= 1)
+    }
+
     pub fn now_us(&self) -> u64 {
         self.t0.elapsed().as_micros() as u64
     }
